@@ -23,7 +23,7 @@ BUDGET = {"quick": 1000, "thorough": 40000}
 SHARDS = {"quick": 8, "thorough": 16}
 TECHNIQUE = "model-based property testing: explicit Cheng et al. weights in numpy, reductions (single azimuth, equal counts), permutation and garbage-twin relations over mask histories"
 
-DISTS = ["lognormal", "normal"]
+DISTS = ["lognormal", "normal", "log-normal"]
 
 
 @st.composite
@@ -60,7 +60,7 @@ def strategy(draw):
                 masks.append(m)
             states.append(dict(how="masks", masks=masks))
         else:
-            states.append(dict(how="fdwr", n=draw(st.sampled_from([1.0, 1.5, 2.0])), dist=draw(st.sampled_from(DISTS))))
+            states.append(dict(how="fdwr", n=draw(st.sampled_from([1.0, 1.5, 2.0])), dist=draw(st.sampled_from(["lognormal", "normal"]))))
     return dict(f=f, groups=groups, azimuths=azs, states=states, nstd=draw(st.sampled_from([1.0, 2.0, 0.5])),
                 perm=draw(st.permutations(list(range(naz)))))
 
@@ -75,6 +75,7 @@ def _weights(masks):
 
 
 def _wstats(x, w, dist, nstd):
+    dist = "lognormal" if dist == "log-normal" else dist
     y = np.log(x) if dist == "lognormal" else x
     m = np.sum(w * y)
     s = math.sqrt(np.sum(w * (y - m) ** 2) / (1.0 - np.sum(w ** 2)))
@@ -84,6 +85,7 @@ def _wstats(x, w, dist, nstd):
 
 
 def _reference(f, groups_A, pk_f, pk_a, masks, dist, nstd):
+    dist = "lognormal" if dist == "log-normal" else dist      # accepted spelling of the same distribution
     w = _weights(masks)
     ref = {}
     xf, xa = _flat(masks, pk_f), _flat(masks, pk_a)
@@ -181,7 +183,7 @@ def check_case(case):
             # per-azimuth curves are the traditional ones
             mba = np.asarray(sut(h.mean_curve_by_azimuth, dist, what="mean_curve_by_azimuth"))
             for j, (A, m) in enumerate(zip(groups_A, masks)):
-                want = A[m][0] if m.sum() == 1 else oracle.mean_dist(A[m], dist, axis=0)
+                want = A[m][0] if m.sum() == 1 else oracle.mean_dist(A[m], "normal" if dist == "normal" else "lognormal", axis=0)
                 require(close(mba[j], want, rtol=1e-10), f"{step}: mean_curve_by_azimuth row {j} ({dist}) is not the mean of that azimuth's accepted windows")
             # reductions
             if naz == 1:
